@@ -434,6 +434,80 @@ func step(t []string, hb *histBufs) string {
 			return errClass(err)
 		}
 		return "ok " + hx(r)
+	case "padcap":
+		// PKCS7Padding on a slice with spare capacity: buf = data ‖ extra canary bytes, in = buf[:len(data)]
+		if len(t) != 4 {
+			return "bad-op"
+		}
+		d, ok := unhx(t[1])
+		b, err1 := strconv.Atoi(t[2])
+		extra, err2 := strconv.Atoi(t[3])
+		if !ok || err1 != nil || err2 != nil || extra < 0 || extra > 4096 {
+			return "bad-op"
+		}
+		buf := append(append(make([]byte, 0, len(d)+extra), d...), bytes.Repeat([]byte{0xee}, extra)...)
+		in := buf[:len(d):len(d)+extra]
+		r, err := cryptz.PKCS7Padding(in, b)
+		if err != nil {
+			return errClass(err)
+		}
+		if !bytes.Equal(buf[:len(d)], d) {
+			return "input-modified"
+		}
+		alias := 0
+		if len(r) > 0 && len(buf) > 0 && &r[0] == &buf[0] {
+			alias = 1
+		}
+		return fmt.Sprintf("ok %s spare=%s alias=%d", hx(r), hx(buf[len(d):]), alias)
+	case "cbcdecleft":
+		// AESCBCDecrypt, and what dst holds afterwards whatever the outcome
+		if len(t) != 5 || (t[1] != "fresh" && t[1] != "inplace") {
+			return "bad-op"
+		}
+		for i := 2; i < 5; i++ {
+			b, ok := unhx(t[i])
+			if !ok {
+				return "bad-op"
+			}
+			args[i] = b
+		}
+		ct := append([]byte{}, args[4]...)
+		dst := ct
+		if t[1] == "fresh" {
+			dst = fill(len(ct))
+		}
+		n, err := cryptz.AESCBCDecrypt(dst, ct, args[2], args[3])
+		o := "ok " + strconv.Itoa(n)
+		if err != nil {
+			o = errClass(err)
+		}
+		return o + " dst=" + hx(dst)
+	case "gcmdecleft":
+		if len(t) != 6 || (t[1] != "fresh" && t[1] != "inplace") {
+			return "bad-op"
+		}
+		for i := 2; i < 6; i++ {
+			b, ok := unhx(t[i])
+			if !ok {
+				return "bad-op"
+			}
+			args[i] = b
+		}
+		ct := append([]byte{}, args[5]...)
+		n := cryptz.AESGCMDecryptLen(ct)
+		if n < 0 {
+			n = 0
+		}
+		dst := ct[:n]
+		if t[1] == "fresh" {
+			dst = fill(n)
+		}
+		err := cryptz.AESGCMDecrypt(dst, ct, args[2], args[3], args[4])
+		o := "ok"
+		if err != nil {
+			o = errClass(err)
+		}
+		return o + " dst=" + hx(dst)
 	case "cbcenc", "cbcdec":
 		if len(t) != 5 {
 			return "bad-op"
@@ -671,6 +745,100 @@ func check(c core.Case, out []string) *core.Failure {
 			return bad(t[0]+"-side-effect", "inputs must not be modified / string and []byte instantiations agree")
 		}
 		switch t[0] {
+		case "padcap":
+			d, _ := unhx(t[1])
+			b, _ := strconv.Atoi(t[2])
+			extra, _ := strconv.Atoi(t[3])
+			if len(d) == 0 || b <= 0 {
+				if !isErr(o) {
+					return bad("pad-accepts-bad-args", "empty data / non-positive block size must be an error")
+				}
+				continue
+			}
+			if b > 255 {
+				continue
+			}
+			f := strings.Fields(o)
+			if len(f) != 4 || f[0] != "ok" {
+				return bad("pad-rejects", "padding of non-empty data must succeed")
+			}
+			x, _ := unhx(f[1])
+			n := validPad(x, b)
+			if n == 0 || !bytes.Equal(x[:len(x)-n], d) {
+				return bad("pad-wrong", "result is not data followed by a correct PKCS#7 padding")
+			}
+			// append semantics: in place iff the padding fits the spare capacity; then the first n spare
+			// bytes are the padding and the rest are still canaries; otherwise the spare bytes are untouched
+			sp, _ := unhx(strings.TrimPrefix(f[2], "spare="))
+			want := bytes.Repeat([]byte{0xee}, extra)
+			if n <= extra {
+				copy(want, x[len(x)-n:])
+			}
+			if !bytes.Equal(sp, want) {
+				return bad("pad-writes-outside-spare-capacity", "append may only write the padding right behind the data, and only when it fits the capacity")
+			}
+		case "cbcdecleft":
+			key, _ := unhx(t[2])
+			iv, _ := unhx(t[3])
+			ct, _ := unhx(t[4])
+			if len(ct) < 16 || len(ct)%16 != 0 || !stdKeyOK(key) {
+				want := hx(ct)
+				if t[1] == "fresh" {
+					want = hx(fill(len(ct)))
+				}
+				if !isErr(strings.Fields(o)[0]) || !strings.HasSuffix(o, " dst="+want) {
+					return bad("cbc-decrypt-rejected-call-writes", "a call rejected for its arguments must be an error and leave dst untouched")
+				}
+				continue
+			}
+			if len(iv) != 16 {
+				continue
+			}
+			p := stdCBCDec(key, iv, ct)
+			if !strings.HasSuffix(o, " dst="+hx(p)) {
+				return bad("cbc-decrypt-leaves", "whatever the outcome, dst must hold the CBC decryption of the ciphertext: "+hx(p))
+			}
+			if n := validPad(p, 16); n == 0 {
+				if !isErr(strings.Fields(o)[0]) {
+					return bad("cbc-decrypt-accepts-bad-padding", "not correctly padded: must be an error")
+				}
+			} else if !strings.HasPrefix(o, fmt.Sprintf("ok %d ", len(p)-n)) {
+				return bad("cbc-decrypt-wrong", fmt.Sprintf("want n=%d", len(p)-n))
+			}
+		case "gcmdecleft":
+			key, _ := unhx(t[2])
+			nonce, _ := unhx(t[3])
+			ad, _ := unhx(t[4])
+			ct, _ := unhx(t[5])
+			n := len(ct) - 16
+			if n < 0 {
+				n = 0
+			}
+			untouched := hx(ct[:n])
+			if t[1] == "fresh" {
+				untouched = hx(fill(n))
+			}
+			if !stdKeyOK(key) || len(nonce) == 0 || len(ct) < 16 {
+				if !isErr(strings.Fields(o)[0]) || !strings.HasSuffix(o, " dst="+untouched) {
+					return bad("gcm-decrypt-rejected-call-writes", "a call rejected before Open runs must be an error and leave dst untouched")
+				}
+				continue
+			}
+			blk, _ := aes.NewCipher(key)
+			g, err := cipher.NewGCMWithNonceSize(blk, len(nonce))
+			if err != nil {
+				continue
+			}
+			p, err := g.Open(nil, nonce, ct, ad)
+			if err != nil {
+				if o != "err:open dst="+hx(make([]byte, n)) {
+					return bad("gcm-decrypt-failure-leaves", "a failed authentication must be an error and leave ZEROS in dst (no unauthenticated plaintext, not the old content)")
+				}
+				continue
+			}
+			if o != "ok dst="+hx(p) {
+				return bad("gcm-decrypt-wrong", "standard AES-GCM Open gives "+hx(p))
+			}
 		case "enclen", "declen", "gcmenclen", "gcmdeclen":
 			n, _ := strconv.Atoi(t[1])
 			w := map[string]int{"enclen": (n/16 + 1) * 16, "declen": n, "gcmenclen": n + 16, "gcmdeclen": n - 16}[t[0]]
